@@ -217,10 +217,49 @@ func errsProgram(r *rand.Rand, idx int) *Program {
 	return p
 }
 
+// errsFixed: failing statements inside immediately-invoked function literals used as statements (with and without a trailing
+// return, nested, after other statements), and in the top-level code of source modules (directly, through a function of the
+// module, through a function of a second module).
+func errsFixed(r *rand.Rand) []*Program {
+	var ps []*Program
+	host := []Input{{Name: "hostfail", V: V{"k": "hostfn", "name": "hostfail"}}}
+	for kind := 0; kind < 16; kind++ {
+		n := 0
+		fail := func() []*Node { return failingStmt(r, kind, "g1", &n) }
+		iife := func(body ...*Node) *Node { return ExprS(Call(Fn(nil, false, body...))) }
+		shapes := [][]*Node{
+			{iife(fail()...)},
+			{iife(append([]*Node{Def("x1", Int(1))}, fail()...)...)},
+			{iife(append(fail(), Ret(Int(1)))...)},
+			{iife(Def("x1", Int(1)), iife(fail()...))},
+			{iife(If(nil, Bin(">", Id("g1"), Int(0)), Blk(fail()...), nil))},
+			{Def("y1", Call(Fn(nil, false, append(fail(), Ret(Int(2)))...)))},
+			{iife(Def("x1", Int(1))), iife(fail()...)},
+		}
+		for si, sh := range shapes {
+			st := append([]*Node{Def("g1", Int(2)), Def("before", Int(1))}, sh...)
+			st = append(st, Def("after", Int(1)))
+			ps = append(ps, &Program{Stmts: st, Inputs: host, Meta: map[string]interface{}{"cell": fmt.Sprintf("iife-stmt-%d kind %d", si, kind)}})
+		}
+		// top-level code of a module
+		modTop := &Program{Stmts: append(append([]*Node{Def("g1", Int(2)), Def("m1", Int(1))}, fail()...), Export(Id("m1")))}
+		ps = append(ps, &Program{Stmts: []*Node{Def("before", Int(1)), Def("c", Import("cfg")), Def("after", Int(1))}, Modules: []Module{{Name: "cfg", Prog: modTop}},
+			Inputs: host, Meta: map[string]interface{}{"cell": fmt.Sprintf("module-top kind %d", kind)}})
+		modFn := &Program{Stmts: []*Node{Def("g1", Int(2)), Def("h", Fn([]string{"q"}, false, append(fail(), Ret(Id("q")))...)), Def("m1", Int(1)), Def("m2", Call(Id("h"), Int(3))), Export(Id("m2"))}}
+		ps = append(ps, &Program{Stmts: []*Node{Def("before", Int(1)), Def("c", Import("cfg")), Def("after", Int(1))}, Modules: []Module{{Name: "cfg", Prog: modFn}},
+			Inputs: host, Meta: map[string]interface{}{"cell": fmt.Sprintf("module-top-call kind %d", kind)}})
+		lib := &Program{Stmts: []*Node{Def("g1", Int(2)), Export(Fn([]string{"q"}, false, append(fail(), Ret(Id("q")))...))}}
+		modUse := &Program{Stmts: []*Node{Def("f", Import("lib")), Def("m1", Int(1)), If(nil, Bin("==", Id("m1"), Int(1)), Blk(Def("m2", Call(Id("f"), Int(3)))), nil), Export(Id("m1"))}}
+		ps = append(ps, &Program{Stmts: []*Node{Def("before", Int(1)), If(nil, Bool(true), Blk(Def("c", Import("cfg"))), nil), Def("after", Int(1))},
+			Modules: []Module{{Name: "lib", Prog: lib}, {Name: "cfg", Prog: modUse}}, Inputs: host, Meta: map[string]interface{}{"cell": fmt.Sprintf("module-top-call-lib kind %d", kind)}})
+	}
+	return ps
+}
+
 func init() {
 	families["errs"] = func(seed int64, n int) []*Program {
 		r := rand.New(rand.NewSource(seed))
-		var ps []*Program
+		ps := errsFixed(r)
 		for i := 0; i < n; i++ {
 			ps = append(ps, errsProgram(r, i))
 		}
